@@ -562,18 +562,12 @@ UriBool URI_FUNC(FixAmbiguity)(URI_TYPE(Uri) * uri,
 		return URI_TRUE;
 	}
 
-	if (	/* Case 1: absolute path, empty first segment, more segments following */
-			(uri->absolutePath
-			&& (uri->pathHead != NULL)
+	/* Empty first segment, more segments following: the text of an absolute
+	 * path would start with "//" (an authority), that of a relative path with
+	 * "/" (an absolute path, or with "//" again) */
+	if ((uri->pathHead != NULL)
 			&& (uri->pathHead->next != NULL)
-			&& (uri->pathHead->text.afterLast == uri->pathHead->text.first))
-
-			/* Case 2: relative path, empty first and second segment */
-			|| (!uri->absolutePath
-			&& (uri->pathHead != NULL)
-			&& (uri->pathHead->next != NULL)
-			&& (uri->pathHead->text.afterLast == uri->pathHead->text.first)
-			&& (uri->pathHead->next->text.afterLast == uri->pathHead->next->text.first))) {
+			&& (uri->pathHead->text.afterLast == uri->pathHead->text.first)) {
 		/* NOOP */
 	} else {
 		return URI_TRUE;
